@@ -388,6 +388,10 @@ func effMaxCount(k *kind) uint64 {
 
 func family(name string) string { return strings.TrimSuffix(name, "-sr") }
 
+func (k *kind) isNodeterm(e []byte) bool {
+	return k.nodeterm || k.nodetermFn != nil && k.nodetermFn(e)
+}
+
 // ---- safe calls ----------------------------------------------------------------------------------------------------------
 
 type panicError struct {
@@ -397,6 +401,8 @@ type panicError struct {
 
 func (p *panicError) Error() string { return fmt.Sprintf("PANIC: %v\n%s", p.val, p.stack) }
 
+// key names a panic by its message class and the two innermost frames of the code under test, so that one defect
+// reached through several decoders is one finding.
 func (p *panicError) key(fam string) string {
 	msg := fmt.Sprint(p.val)
 	if i := strings.IndexByte(msg, ':'); i > 0 {
@@ -405,16 +411,43 @@ func (p *panicError) key(fam string) string {
 	if len(msg) > 40 {
 		msg = msg[:40]
 	}
-	return "panic/" + fam + "/" + strings.TrimSpace(msg)
+	var frames []string
+	for _, l := range strings.Split(p.stack, "\n") {
+		if !strings.HasPrefix(l, "github.com/nspcc-dev/neo-go/pkg/") {
+			continue
+		}
+		f := strings.TrimPrefix(l, "github.com/nspcc-dev/neo-go/pkg/")
+		if i := strings.LastIndexByte(f, '('); i > 0 {
+			f = f[:i]
+		}
+		if i := strings.LastIndexByte(f, '/'); i >= 0 {
+			f = f[i+1:]
+		}
+		frames = append(frames, f)
+		break
+	}
+	if len(frames) == 0 {
+		return "panic/" + fam + "/" + strings.TrimSpace(msg)
+	}
+	return "panic/" + strings.Join(frames, "<") + "/" + strings.TrimSpace(msg)
 }
 
 func trimStack(b []byte) string {
 	lines := strings.Split(string(b), "\n")
-	// drop the frames of the recover machinery
-	if len(lines) > 26 {
-		lines = lines[:26]
+	var keep []string
+	for _, l := range lines {
+		if strings.HasPrefix(l, "\t") || strings.HasPrefix(l, "goroutine ") || l == "" {
+			continue // keep function names only
+		}
+		if strings.HasPrefix(l, "runtime/debug.Stack") || strings.HasPrefix(l, "verifharness/c17.safe") || strings.HasPrefix(l, "panic(") {
+			continue
+		}
+		keep = append(keep, l)
+		if len(keep) == 12 {
+			break
+		}
 	}
-	return strings.Join(lines, "\n")
+	return strings.Join(keep, "\n")
 }
 
 func safeDec(k *kind, b []byte) (v any, n int, err error) {
@@ -554,7 +587,7 @@ func checkValue(c ValueCase, o *vt.Obs) error {
 	if err != nil {
 		return fmt.Errorf("%s: re-encoding of the decoded value fails: %v", k.name, err)
 	}
-	if !k.nodeterm && !bytes.Equal(e1, e) {
+	if !k.isNodeterm(e) && !bytes.Equal(e1, e) {
 		return fmt.Errorf("%s: encode(decode(encode(v))) differs: %s", k.name, firstDiff(fmt.Sprintf("%x", e1), fmt.Sprintf("%x", e)))
 	}
 	if k.ident != nil {
@@ -576,7 +609,10 @@ func checkValue(c ValueCase, o *vt.Obs) error {
 		}
 		v2, err := k.jsonDec(j)
 		if err != nil {
-			return fmt.Errorf("%s: JSON unmarshalling of own output fails: %v\njson: %s", k.name, err, short(string(j)))
+			if err := vd.fail(k.jsonKey, "%s: JSON unmarshalling of own output fails: %v\njson: %s", k.name, err, short(string(j))); err != nil {
+				return err
+			}
+			return nil
 		}
 		if d2 := k.dump(v2); d2 != d0 {
 			return fmt.Errorf("%s: JSON round trip changes the value: %s\njson: %s", k.name, firstDiff(d2, d0), short(string(j)))
@@ -805,9 +841,13 @@ func oracleBytes(k *kind, in []byte, expectReject, origin string, o *vt.Obs) err
 		}
 		return nil
 	}
+	if k.reencRefused != nil && k.reencRefused(v, e1) {
+		o.Label(fam + "/accepted-reencode-refused")
+		return nil
+	}
 	canonical := bytes.Equal(used, e1)
-	if k.nodeterm {
-		canonical = len(used) == len(e1)
+	if k.isNodeterm(e1) {
+		canonical = len(used) == len(e1) || k.nodetermFn != nil
 	}
 	nkey := ""
 	if !canonical {
@@ -845,7 +885,7 @@ func oracleBytes(k *kind, in []byte, expectReject, origin string, o *vt.Obs) err
 			}
 		}
 	}
-	if !k.nodeterm {
+	if !k.isNodeterm(e1) {
 		if e2, _, err := safeEnc(k, v2); err != nil || !bytes.Equal(e2, e1) {
 			return fmt.Errorf("%s: encoding is not a fixpoint after one round (%v); input %x", k.name, err, shortB(in))
 		}
